@@ -32,6 +32,8 @@ func C17(r *core.Run) {
 	entityPathKeys(r, info)
 	// the key markers (primary, foreign, tenant) are independent: each is emitted whatever the others are
 	attributeIndependence(r, "sym_sites", "*")
+	// what is generated for one declared command service / event / summary does not depend on the one before it
+	iterationIndependence(r, walkRel, "entity.go", "topic.go", "file.go", "service.go")
 }
 
 // entityMustCall: run() calls every accept* method, each behind an error return.
@@ -40,8 +42,8 @@ func entityMustCall(r *core.Run) {
 	pk := r.P.Pkg(walkRel)
 	var methods []string
 	core.AllFuncDecls(pk, func(fd *ast.FuncDecl) {
-		if core.RecvName(fd) == "entityNode" && strings.HasPrefix(fd.Name.Name, "accept") {
-			methods = append(methods, fd.Name.Name)
+		if name := strings.TrimPrefix(core.FuncName(fd), "entityNode."); core.RecvName(fd) == "entityNode" && strings.HasPrefix(name, "accept") {
+			methods = append(methods, name) // the recorded name, should the method have been renamed
 		}
 	})
 	sort.Strings(methods)
@@ -65,12 +67,12 @@ func entityMustCall(r *core.Run) {
 			continue
 		}
 		s, ok := c.Fun.(*ast.SelectorExpr)
-		if !ok || !strings.HasPrefix(s.Sel.Name, "accept") {
+		if !ok || !strings.HasPrefix(selRecorded(pk.TypesInfo, s), "accept") {
 			continue
 		}
 		if core.ExprStr(ifs.Cond) == "err != nil" && len(ifs.Body.List) == 1 {
 			if _, isRet := ifs.Body.List[0].(*ast.ReturnStmt); isRet {
-				order[s.Sel.Name] = (i + 1) * 1000
+				order[selRecorded(pk.TypesInfo, s)] = (i + 1) * 1000
 			}
 		}
 	}
@@ -117,8 +119,8 @@ func entityMustCall(r *core.Run) {
 			continue
 		}
 		for j, el := range cl.Elts {
-			if s, ok := core.Unparen(el).(*ast.SelectorExpr); ok && strings.HasPrefix(s.Sel.Name, "accept") {
-				order[s.Sel.Name] = (i+1)*1000 + j
+			if s, ok := core.Unparen(el).(*ast.SelectorExpr); ok && strings.HasPrefix(selRecorded(pk.TypesInfo, s), "accept") {
+				order[selRecorded(pk.TypesInfo, s)] = (i+1)*1000 + j
 			}
 		}
 	}
@@ -216,6 +218,9 @@ func entityNames(r *core.Run, info *types.Info) {
 	r.Rule("R-CONST/entitynames", "component schema names are componentName(<suffix>) or ToCamel(entity name + <suffix>) with the suffix constants Keys, Data, Status, State, EventType, Event; the status prefix is SCREAMING_SNAKE(entity)_STATUS_ in both acceptStatus and findStatus")
 	pk := r.P.Pkg(walkRel)
 	allowed := map[string]bool{"Keys": true, "Data": true, "Status": true, "State": true, "EventType": true, "Event": true}
+	// names of services, topics, methods and summaries that the expansion spells with Sprintf today;
+	// writing one of them through componentName instead changes nothing
+	service := map[string]bool{"Command": true, "Query": true, "Publish": true, "Summary": true, "Get": true, "List": true, "Events": true}
 	used := map[string]bool{}
 	core.AllFuncDecls(pk, func(fd *ast.FuncDecl) {
 		if core.RecvName(fd) != "entityNode" {
@@ -228,7 +233,8 @@ func entityNames(r *core.Run, info *types.Info) {
 			}
 			var suffix string
 			var have bool
-			if s, ok := c.Fun.(*ast.SelectorExpr); ok && (s.Sel.Name == "componentName" || s.Sel.Name == "innerRef") && len(c.Args) == 1 {
+			if s, ok := c.Fun.(*ast.SelectorExpr); ok && (calleeRecorded(info, c) == "componentName" || calleeRecorded(info, c) == "innerRef") && len(c.Args) == 1 {
+				_ = s
 				suffix, have = core.ConstString(info, c.Args[0])
 				if !have {
 					return true // forwarded parameter (innerRef)
@@ -245,6 +251,8 @@ func entityNames(r *core.Run, info *types.Info) {
 			o := r.Add("R-CONST/entitynames", fmt.Sprintf("sourcewalk.entityNode.%s | component %q", fd.Name.Name, suffix), c.Pos(), "component name suffix "+suffix)
 			if allowed[suffix] {
 				o.Auto("documented component")
+			} else if service[suffix] {
+				o.Auto("service, topic or method name built from the entity name (today spelled with Sprintf)")
 			} else {
 				o.Fail("suffix %q is not one of Keys, Data, Status, State, EventType, Event", suffix)
 			}
@@ -410,4 +418,18 @@ func aliasOf(info *types.Info, fd *ast.FuncDecl, e ast.Expr) string {
 		return src
 	}
 	return ""
+}
+
+// calleeRecorded: the simple name a call's static callee is known by (its
+// recorded name when it was renamed).
+func calleeRecorded(info *types.Info, c *ast.CallExpr) string {
+	return core.RecordedName(core.CalleeFunc(info, c))
+}
+
+// selRecorded: the recorded name of the function or method a selector denotes.
+func selRecorded(info *types.Info, s *ast.SelectorExpr) string {
+	if fn, ok := info.Uses[s.Sel].(*types.Func); ok {
+		return core.RecordedName(fn)
+	}
+	return s.Sel.Name
 }
